@@ -41,6 +41,23 @@ func runC01(c *Ctx) {
 	merge := w.fn("", "overlayer.overlayStruct")
 	leaf := w.fn("", "overlayer.overlayField")
 	ptrfy := w.fn("ptrify", "Pointerify")
+	// the exported entry point may delegate to an unexported worker that carries extra state: follow a pure forwarder
+	for hops := 0; ptrfy != nil && hops < 2 && len(loopHeaders(ptrfy)) == 0; hops++ {
+		var fwd *ssa.Function
+		n := 0
+		for _, i := range allInstrs(ptrfy) {
+			if ci, ok := i.(*ssa.Call); ok {
+				if callee := staticCallee(ci); callee != nil && w.pkgRelOfFn(callee) == "ptrify" {
+					fwd = callee
+					n++
+				}
+			}
+		}
+		if n != 1 {
+			break
+		}
+		ptrfy = fwd
+	}
 	pfield := w.fn("ptrify", "pointerifyField")
 	omit := w.fn("ptrify", "OmitField")
 	if !c.need(merge != nil && leaf != nil && ptrfy != nil && pfield != nil && omit != nil, "overlayer.overlayStruct/overlayField, ptrify.Pointerify/pointerifyField/OmitField") {
